@@ -26,8 +26,7 @@ SEPS = ["/", ".", "|", "::"]
 CLS = dict((s, _mk(s)) for s in SEPS)
 
 BS = chr(92)
-POOL = [u"é", "a", "A", "a.b", "a*b", "x?", "ab", "AB", "[", "b", "(+", 7, "a/b", "B", "a" + BS + "b", "^a$", u"É", "a|b", "..a", "a b", "a
-b", "A*"]
+POOL = [u"é", "a", "A", "a.b", "a*b", "x?", "ab", "AB", "[", "b", "(+", 7, "a/b", "B", "a" + BS + "b", "^a$", u"É", "a|b", "..a", "a b", "a" + chr(10) + "b", "A*"]
 
 
 def classify(exc):
